@@ -7,10 +7,11 @@ open Handshake
 def parseMsg (w : String) : Option Msg :=
   match w.splitOn ":" with
   | ["exver", v] => some (.exVer (Drv.nat! v))
-  | ["mfile", v, g] => some (.metaFile (Drv.nat! v) 7 (g = "1"))
+  | ["mfile", v, g] => some (.metaFile (Drv.nat! v) 7 (g = "1"))          -- g = 0: nothing mappable, 2: only the queue
   | ["mmemfd", v] => some (.metaMemfd (Drv.nat! v) 7)
+  | ["mmemfdx", v] => some (.metaMemfd (Drv.nat! v) 7)
   | ["ackfd"] => some .ackReadyFd
-  | ["fds", g] => some (.fds 7 (g = "1"))
+  | ["fds", g] => some (.fds 7 (g = "1"))                                 -- g = 0: nothing mappable, 2: only the queue
   | ["ackshm"] => some .ackShm
   | ["other", ty, v] => some (.other (Drv.nat! ty) (Drv.nat! v))
   | _ => none
